@@ -269,7 +269,7 @@ pub fn gen_num_rows(rng: &mut Rng, big: bool) -> usize {
     match rng.weighted(&[30, 25, 25, 14, w_big]) {
         0 => *rng.pick(&[0usize, 1, 2, 3, 7, 63, 64, 65, 127, 128, 129, 255, 256, 257]),
         1 => rng.urange(1, 300),
-        2 => *rng.pick(&[511usize, 512, 513, 1023, 1024, 1025, 1535, 1536, 1537, 2048, 4096]),
+        2 => *rng.pick(&[511usize, 512, 513, 1023, 1024, 1025, 1535, 1536, 1537, 2048, 4096, 5119, 5120, 5121, 6000, 10_240]),
         3 => rng.urange(300, 6000),
         _ => match rng.below(8) {
             0 => 65_535,
@@ -353,7 +353,7 @@ pub fn gen_counts(rng: &mut Rng, n: usize, profile: &'static str, max_total: usi
             let mut start = 0;
             while start < n {
                 let len = (n - start).min(65_536);
-                let k = *rng.pick(&[5119usize, 5120, 5121, 5119, 5120, 0, 1, len.saturating_sub(1), len, len / 2]);
+                let k = *rng.pick(&[5119usize, 5120, 5121, 5119, 5120, 5121, 5120, 0, 1, len.saturating_sub(1), len, len / 2]);
                 let k = k.min(len);
                 choose_k_of(rng, &mut c[start..start + len], k);
                 start += len;
